@@ -440,6 +440,145 @@ fn gen_tcp_case(r: &mut Rng, id: u16) -> SrvCase {
     c
 }
 
+fn stream_server_with(idle_ms: u64, max_conn: Option<usize>) -> StreamSrv {
+    let sh = Shared::default();
+    let mut cc = ConnectionConfig::new();
+    cc.set_idle_timeout(Duration::from_millis(idle_ms));
+    let mut cfg = stream::Config::new();
+    cfg.set_connection_config(cc);
+    if let Some(m) = max_conn { cfg.set_max_concurrent_connections(m); }
+    let srv = Arc::new(StreamServer::with_config(MockListener::default(), VecBufSource, stack(&sh), cfg));
+    let listener = srv.source();
+    let s2 = srv.clone();
+    let handle = tokio::spawn(async move { s2.run().await });
+    StreamSrv { listener, sh, handle, _srv: srv }
+}
+
+/// is the connection served: a query is answered by one frame with its id
+async fn probe(client: &mut DuplexStream, id: u16) -> bool {
+    let q = mk_query(id, 1, &[4], 1, None);
+    let mut f = vec![0, q.len() as u8]; f.extend_from_slice(&q);
+    if client.write_all(&f).await.is_err() { return false; }
+    let (got, _) = drain(client, 20).await;
+    let (frames, _) = split_stream(&got);
+    frames.len() == 1 && frames[0].len() >= 2 && frames[0][0] == (id >> 8) as u8 && frames[0][1] == id as u8
+}
+
+/// T2 + oracle (virtual time): idle timeout of a connection; connection limit of the server
+async fn run_idle_limit(recs: &mut Vec<Rec>, idle_cases: Vec<(u64, u64)>, limit_cases: Vec<(usize, usize)>, idx: &mut u64, only: Option<u64>) {
+    let mut port = 8000u16;
+    for (timeout, wait) in idle_cases {
+        *idx += 1;
+        if only.map_or(false, |o| o != *idx) { continue; }
+        let srv = stream_server_with(timeout, None);
+        port = port.wrapping_add(1).max(8000);
+        let mut client = srv.listener.connect(port);
+        settle(0).await; // the connection handler starts at virtual time t0
+        tokio::time::sleep(Duration::from_millis(wait)).await;
+        let open = probe(&mut client, 0x5151).await;
+        let line = format!("idle {} {}", timeout, wait);
+        recs.push(Rec::Case(line.clone(), if open { "open".into() } else { "closed".into() }, "idle"));
+        // oracle: an idle connection is served before the timeout and gone after it
+        if wait + 1 < timeout { chk(recs, open, "idle_timeout_wrong", &line, "closed before the idle timeout".into()); }
+        if wait > timeout { chk(recs, !open, "idle_timeout_wrong", &line, "still served after the idle timeout".into()); }
+        if open {
+            // a complete exchange re-arms the timer: still served just before a second period ends, gone after it
+            tokio::time::sleep(Duration::from_millis(timeout.saturating_sub(25))).await;
+            let again = probe(&mut client, 0x5252).await;
+            chk(recs, again || timeout <= 25, "idle_timeout_wrong", &line, "closed although less than the idle timeout passed since the last response".into());
+            tokio::time::sleep(Duration::from_millis(timeout + 30)).await;
+            let late = probe(&mut client, 0x5353).await;
+            chk(recs, !late, "idle_timeout_wrong", &line, "still served one idle period after the last response".into());
+        }
+        // octets that do not complete a message must not re-arm the timer (RFC 7766 6.2.3)
+        let mut slow = srv.listener.connect(port.wrapping_add(3000));
+        settle(0).await;
+        let step = (timeout / 3).max(1);
+        let mut alive_after = 0u64;
+        for _ in 0..6 { let _ = slow.write_all(&[0]).await; tokio::time::sleep(Duration::from_millis(step)).await; alive_after += step; }
+        let mut b = [0u8; 1];
+        let eof = matches!(tokio::time::timeout(Duration::from_millis(5), slow.read(&mut b)).await, Ok(Ok(0)) | Ok(Err(_)));
+        chk(recs, eof || alive_after <= timeout, "idle_timeout_wrong", &line, format!("a connection trickling single octets is still open {} ms after it started", alive_after));
+        drop(srv);
+        settle(1).await;
+    }
+    for (max, k) in limit_cases {
+        *idx += 1;
+        if only.map_or(false, |o| o != *idx) { continue; }
+        let srv = stream_server_with(30_000, Some(max));
+        let mut clients = vec![];
+        let mut obs = String::new();
+        for j in 0..k {
+            port = port.wrapping_add(1).max(8000);
+            let mut c = srv.listener.connect(port);
+            settle(1).await;
+            let served = probe(&mut c, 0x6100 + j as u16).await;
+            obs.push(if served { 's' } else { 'd' });
+            clients.push(c);
+        }
+        let line = format!("limit {} {}", max, k);
+        recs.push(Rec::Case(line.clone(), obs.clone(), "limit"));
+        // oracle: never more than `max` connections served at once; after one is closed a new one is served
+        chk(recs, obs.chars().filter(|c| *c == 's').count() <= max, "connection_limit_exceeded", &line, obs.clone());
+        chk(recs, obs.chars().take(max.min(k)).all(|c| c == 's'), "connection_refused_below_limit", &line, obs.clone());
+        if k > max && max >= 1 {
+            clients.remove(0);
+            settle(5).await;
+            let mut c = srv.listener.connect(port.wrapping_add(500));
+            settle(1).await;
+            let served = probe(&mut c, 0x6200).await;
+            chk(recs, served, "connection_refused_below_limit", &line, "a connection opened after another was closed is not served".into());
+        }
+        chk(recs, !srv.handle.is_finished(), "panic_server", &line, "server task ended".into());
+        drop(clients);
+        drop(srv);
+        settle(1).await;
+    }
+}
+
+/// T2: the cookies middleware's own answers made without the request's question
+/// (malformed COOKIE option => FORMERR; no cookie from a denied address => REFUSED + TC)
+async fn run_ck_cases(recs: &mut Vec<Rec>, cases: Vec<(u16, u8, Vec<usize>, Option<u16>, Option<u16>, bool)>, idx: &mut u64, only: Option<u64>) {
+    for (id, b2, labels, client, cfg, denied) in cases {
+        *idx += 1;
+        if only.map_or(false, |o| o != *idx) { continue; }
+        let line = format!("ck {} {} {} 1 {} {} {}", id, b2, labels_str(&labels), opt_str(client), opt_str(cfg), if denied { "deny" } else { "mal" });
+        let mut q = mk_query(id, b2, &labels, 1, None);
+        if let Some(c) = client {
+            q[11] = 1;
+            if denied { q.extend_from_slice(&[0, 0, 41, (c >> 8) as u8, c as u8, 0, 0, 0, 0, 0, 0]); }
+            else { q.extend_from_slice(&[0, 0, 41, (c >> 8) as u8, c as u8, 0, 0, 0, 0, 0, 9, 0, 10, 0, 5, 1, 2, 3, 4, 5]); } // COOKIE of 5 octets
+        }
+        let mut config = dgram::Config::new();
+        config.set_max_response_size(cfg);
+        let sh = Shared::default();
+        let srv = Arc::new(DgramServer::with_config(MockSock::default(), VecBufSource, stack(&sh), config));
+        let sock = srv.source();
+        let s2 = srv.clone();
+        let _handle = tokio::spawn(async move { s2.run().await });
+        sock.inject(q.clone(), if denied { denied_addr() } else { client_addr() });
+        settle(20).await;
+        let outv = sock.take_out();
+        let obs = match outv.len() {
+            0 => "Ok None".to_string(),
+            1 => match view(&outv[0].1) {
+                Some(v) => format!("Ok len={} tc={} id={} cnt={},{},{},{} opt={} b2={} b3={} ottl={}", outv[0].1.len(), v.tc as u8, v.id, v.qd, v.an, v.ns, v.ar, v.opt as u8, v.b2, v.b3, v.ottl),
+                None => "Unparseable".into(),
+            },
+            n => format!("Multi {}", n),
+        };
+        recs.push(Rec::Case(line.clone(), obs, "ck"));
+        for (_, d) in &outv {
+            if let Some(v) = view(d) {
+                chk(recs, v.qd >= 1, "cookie_response_without_question", &line, format!("datagram {} answered by {} octets with QDCOUNT 0 (rcode {}, TC={})", hex(&q), d.len(), v.b3 & 15, v.tc as u8));
+            }
+        }
+        chk(recs, sh.calls.lock().unwrap().is_empty(), "cookie_reject_reached_service", &line, "the service was called".into());
+        let _ = srv.shutdown();
+        settle(2).await;
+    }
+}
+
 /// a raw datagram without records and without compression pointers: QDCOUNT above,
 /// at or below the questions present, trailing octets, shorter than a header, longer
 /// than the 1024-octet receive buffer
@@ -957,6 +1096,22 @@ fn main() {
         (vec![0x12, 0x36, 0x00, 0, 0, 3, 0, 0, 0, 0, 0, 0, 1, b'a', 0, 0, 1, 0, 1], Some(1232)),   // QUERY, QDCOUNT 3
     ];
     for i in 0..n_pad { let d = gen_pad_datagram(&mut r, (0xa000 + (i % 0x1000)) as u16); pad_cases.push((d, *r.pick(&[None, Some(512), Some(1232), Some(4096)]))); }
+    let mut ck_cases: Vec<(u16, u8, Vec<usize>, Option<u16>, Option<u16>, bool)> = vec![
+        (0xb000, 1, vec![1], Some(1232), Some(1232), false), (0xb001, 1, vec![1], None, Some(1232), true), (0xb002, 0, vec![3, 2], Some(4096), None, true)];
+    for i in 0..(if a.thorough { 1500 } else { 200 } * scale) {
+        let denied = r.chance(1, 2);
+        let client = if denied && r.chance(1, 2) { None } else { Some(pick_size(&mut r)) };
+        let opcode: u8 = *r.pick(&[0u8, 0, 0, 2, 4, 5]);
+        ck_cases.push((0xb100 + (i % 0xe00) as u16, opcode << 3 | r.below(2) as u8, pick_labels(&mut r), client, *r.pick(&[None, Some(512), Some(1232), Some(4096)]), denied));
+    }
+    let mut idle_cases: Vec<(u64, u64)> = vec![(200, 0), (200, 199), (200, 200), (200, 201), (1000, 999), (1000, 1000), (30_000, 29_999), (30_000, 30_001)];
+    for _ in 0..(if a.thorough { 200 } else { 30 } * scale) {
+        let t = *r.pick(&[200u64, 250, 1000, 5000, 30_000]);
+        let w = match r.below(5) { 0 => t - 1, 1 => t, 2 => t + 1, 3 => r.below(t), _ => t + r.below(t) };
+        idle_cases.push((t, w));
+    }
+    let mut limit_cases: Vec<(usize, usize)> = vec![(1, 3), (2, 2), (2, 3), (3, 5)];
+    for _ in 0..(if a.thorough { 60 } else { 10 } * scale) { let m = r.range(1, 6) as usize; limit_cases.push((m, (m as i64 + r.below(5) as i64 - 1).max(1) as usize)); }
     let n_tcp = if a.thorough { 6_000 } else { 800 } * scale;
     let mut tcp_cases: Vec<SrvCase> = vec![];
     {
@@ -986,28 +1141,34 @@ fn main() {
     let rt2 = rt();
     let only = a.only;
     let seed2 = r.next();
-    let res = rt2.block_on(async move {
-        let mut rr = Rng(seed2);
-        let mut recs: Vec<Rec> = vec![];
-        run_srv_cases(&mut recs, srv_cases, &mut idx, only).await;
-        run_pad_cases(&mut recs, pad_cases, &mut idx, only).await;
-        run_tcp_cases(&mut recs, tcp_cases, &mut idx, only).await;
-        run_conn_cases(&mut recs, conn_cases, &mut idx, only).await;
-        run_dgram(&mut recs, &mut rr, n_dg, &mut idx, only).await;
-        run_cookies(&mut recs, &mut rr, n_dg * 2, &mut idx, only).await;
-        run_stream(&mut recs, &mut rr, n_st, &mut idx, only).await;
-        for (n, d) in [(10usize, 0u64), (11, 0), (40, 0), (10, 25), (12, 25)] { run_burst(&mut recs, n, d, &mut idx, only).await; }
-        recs
-    });
-    for rec in res {
-        match rec {
-            Rec::Case(line, obs, kind) => out.case(&line, &obs, true, kind),
-            Rec::Oracle(line, kind) => out.oracle_case(&line, true, kind),
-            Rec::Check(ok, class, case, detail) => capped(&mut out, &mut per_class, ok, class, &case, &detail),
-            Rec::Count(k) => out.count(k),
-        }
+    // one block_on per phase; verdicts are flushed (and the hang watchdog fed) between phases
+    let mut rr = Rng(seed2);
+    macro_rules! phase {
+        ($name:expr, $recs:ident => $fut:expr) => {{
+            out.begin($name);
+            let mut $recs: Vec<Rec> = vec![];
+            rt2.block_on($fut);
+            for rec in $recs {
+                match rec {
+                    Rec::Case(line, obs, kind) => out.case(&line, &obs, true, kind),
+                    Rec::Oracle(line, kind) => out.oracle_case(&line, true, kind),
+                    Rec::Check(ok, class, case, detail) => capped(&mut out, &mut per_class, ok, class, &case, &detail),
+                    Rec::Count(k) => out.count(k),
+                }
+            }
+        }};
     }
-    // ---- slow reader against a one-slot response queue (real time, ~4 s)
+    phase!("srv cases", recs => run_srv_cases(&mut recs, srv_cases, &mut idx, only));
+    phase!("idle and limit cases", recs => run_idle_limit(&mut recs, idle_cases, limit_cases, &mut idx, only));
+    phase!("ck cases", recs => run_ck_cases(&mut recs, ck_cases, &mut idx, only));
+    phase!("pad cases", recs => run_pad_cases(&mut recs, pad_cases, &mut idx, only));
+    phase!("tcp cases", recs => run_tcp_cases(&mut recs, tcp_cases, &mut idx, only));
+    phase!("conn cases", recs => run_conn_cases(&mut recs, conn_cases, &mut idx, only));
+    phase!("dgram rounds", recs => run_dgram(&mut recs, &mut rr, n_dg, &mut idx, only));
+    phase!("cookies rounds", recs => run_cookies(&mut recs, &mut rr, n_dg * 2, &mut idx, only));
+    phase!("stream rounds", recs => run_stream(&mut recs, &mut rr, n_st, &mut idx, only));
+    for (n, d) in [(10usize, 0u64), (11, 0), (40, 0), (10, 25), (12, 25)] { phase!("stream burst", recs => run_burst(&mut recs, n, d, &mut idx, only)); }
+    // ---- slow reader against a one-slot response queue (virtual time)
     let slow: &[(usize, u64, u64, u64)] = if a.thorough { &[(24, 150, 2000, 500), (16, 250, 2000, 300)] } else { &[(24, 150, 2000, 500)] };
     let mut slow_secs = 0.0;
     for &(n, pause, wt, delay) in slow {
@@ -1019,9 +1180,9 @@ fn main() {
         slow_secs += secs;
         out.oracle_case(&case, true, "stream_slow_reader");
         capped(&mut out, &mut per_class, answered == n && frames == n && !closed, "stream_response_dropped_slow_reader", &case,
-            &format!("{} of {} requests answered, {} frames, closed={}, {:.1}s", answered, n, frames, closed, secs));
+            &format!("{} of {} requests answered, {} frames, closed={}, {:.1} virtual seconds", answered, n, frames, closed, secs));
     }
-    out.finish(&[("slow_reader_seconds", format!("{:.2}", slow_secs))]);
+    out.finish(&[("slow_reader_virtual_seconds", format!("{:.2}", slow_secs))]);
 }
 
 fn capped(out: &mut Out, per_class: &mut HashMap<&'static str, u32>, ok: bool, class: &'static str, case: &str, detail: &str) {
@@ -1209,17 +1370,20 @@ async fn run_dgram(recs: &mut Vec<Rec>, r: &mut Rng, rounds: u64, idx: &mut u64,
     }
 }
 
-/// Slow reader (REAL time, own runtime: the wait-for-a-queue-slot loop yields
-/// instead of sleeping, so virtual time would never advance).  A response queue
-/// of one slot, `n` pipelined requests whose responses become ready together, a
-/// client that reads one response every `pause_ms` through a 16-octet pipe: the
-/// last responses wait about n * pause_ms for a slot, far longer than the write
-/// timeout `wt_ms`, while a single write takes about pause_ms (margin wt/pause).
-/// Every request must still get its response and the connection must stay up.
+/// Slow reader.  A response queue of one slot, `n` pipelined requests whose
+/// responses become ready together, a client that reads one response and then lets
+/// `pause_ms` pass, through a 16-octet pipe: the last responses wait about
+/// n * pause_ms for a slot, far longer than the write timeout `wt_ms`, while a single
+/// write takes about pause_ms.  Every request must still get its response and the
+/// connection must stay up.
+/// Deterministic: the clock is tokio's paused clock.  The wait-for-a-queue-slot loop
+/// yields instead of sleeping, so the runtime is never idle and the clock never
+/// auto-advances while responses are pending; the client moves it explicitly with
+/// `tokio::time::advance`.  No wall-clock time, no dependence on machine load.
 fn run_slow_reader(n: usize, pause_ms: u64, wt_ms: u64, delay_ms: u64) -> (usize, bool, usize, f64) {
-    let rt = tokio::runtime::Builder::new_current_thread().enable_time().build().unwrap();
+    let rt = rt();
     rt.block_on(async move {
-        let t0 = std::time::Instant::now();
+        let t0 = tokio::time::Instant::now();
         let sh = Shared::default();
         let mut cc = ConnectionConfig::new();
         cc.set_max_queued_responses(1);
@@ -1255,7 +1419,7 @@ fn run_slow_reader(n: usize, pause_ms: u64, wt_ms: u64, delay_ms: u64) -> (usize
             }
             frames += 1;
             if m.len() >= 2 { ids.insert(((m[0] as u16) << 8) | m[1] as u16); }
-            tokio::time::sleep(Duration::from_millis(pause_ms)).await;
+            tokio::time::advance(Duration::from_millis(pause_ms)).await;
         }
         let answered = (0..n).filter(|j| ids.contains(&(0x6800 + *j as u16))).count();
         writer.abort();
@@ -1340,6 +1504,15 @@ async fn run_cookies(recs: &mut Vec<Rec>, r: &mut Rng, rounds: u64, idx: &mut u6
                 // the question is asserted only for responses of the service (the middleware's own
                 // FORMERR / REFUSED answers carry no question section)
                 let by_service = calls.iter().any(|c| c.0 == *id);
+                // the middleware's own answers: "sent back with the request's ID and question" - a requestor
+                // matches responses by the question (RFC 5452 9.1); at least the first question must be there
+                if !by_service && !*_prefetch {
+                    if let Some(v) = view(d) {
+                        chk(recs, v.qd >= 1 && question_of(q).map_or(false, |rq| rq.starts_with(&v.question) && !v.question.is_empty()),
+                            "cookie_response_without_question", &case,
+                            format!("request has {} question(s), the {}-octet response (rcode {}, TC={}) has QDCOUNT {}", ((q[4] as usize) << 8) | q[5] as usize, d.len(), d[3] & 15, v.tc as u8, v.qd));
+                    }
+                }
                 let mut sub = vec![]; std::mem::swap(recs, &mut sub);
                 let mut o = SubOut { recs: sub };
                 let req_for_oracle: Vec<u8> = if by_service { q.clone() } else { q[..2].to_vec() };
